@@ -191,6 +191,25 @@ func knownFindingReproducers(c *Ctx) {
 	if out, host, err := runProg(src); host != "" || err != nil || out != "1 7 " {
 		c.Fail("recover-named-result-host-panic", map[string]string{"source": src, "printed": out, "want": "1 7 ", "host_panic": host, "err": fmt.Sprint(err)})
 	}
+	// a panic that is not recovered in a goroutine started by a go statement ends the program under gc
+	// (exit status 2, "panic: in goroutine"); Run must return it as a *PanicError
+	src = "package main\nfunc main() {\n\tdone := make(chan bool)\n\tgo func() {\n\t\tdefer func() { done <- true }()\n\t\tpanic(\"in goroutine\")\n\t}()\n\t<-done\n\tprint(1)\n}\n"
+	c.Count("evaluations")
+	{
+		var buf bytes.Buffer
+		var err error
+		host := PanicText(func() {
+			prog, berr := scriggo.Build(scriggo.Files{"main.go": []byte(src)}, &scriggo.BuildOptions{AllowGoStmt: true})
+			if berr != nil {
+				err = berr
+				return
+			}
+			err = prog.Run(&scriggo.RunOptions{Print: func(v any) { fmt.Fprint(&buf, v, " ") }})
+		})
+		if pe, ok := err.(*scriggo.PanicError); host != "" || !ok || fmt.Sprint(pe.Message()) != "in goroutine" {
+			c.Fail("goroutine-panic-is-dropped", map[string]string{"source": src, "printed": buf.String(), "host_panic": host, "err": fmt.Sprint(err), "want": "*PanicError in goroutine"})
+		}
+	}
 	// run-time faults must carry the path and the position of the faulting statement (line 4 in each program)
 	faults := []struct{ name, stmt string }{
 		{"index-out-of-range", "a := []int{1}; i := 5; _ = a[i]"},
